@@ -282,6 +282,7 @@ EXPORT wchar_t *_wcstok_s_chk(wchar_t *restrict dest, rsize_t *restrict dmaxp,
          */
         slen = STRTOK_DELIM_MAX_LEN;
         pt = delim;
+        ptoken = dest; /* a token starts here unless it is a delimiter */
         while (*pt != L'\0') {
 
             if (unlikely(slen == 0)) {
